@@ -3,8 +3,8 @@ replay never depends on the PRNG."""
 import random, json, copy
 
 FORMATS = ["md5", "sha1", "xxh128", "xxh3", "xxh64", "c4"]
-FILE_NAMES = ["a.txt", "b.txt", "c.bin", "d e.txt", "ü.txt", "x&y.txt", "z<1>.txt", "q'\".txt", "日本.txt", "data.tmp", "keep.bak", "A001.mov", "a001.mov", "é.txt", "é.txt", "long" + "n" * 40 + ".dat", "-.txt", "#h.txt", "[b].txt", "li\u2028ne.txt", "𝄞 clef.txt", "take\\3.mov"]
-DIR_NAMES = ["A", "AB", "a", "s", "t", "sub dir", "é", "pa\u2029ra", "Clips", "Clips_proxy", "tmp", "B", "x&y", "d.tmp", "win\\dir"]
+FILE_NAMES = ["a.txt", "b.txt", "c.bin", "d e.txt", "ü.txt", "x&y.txt", "z<1>.txt", "q'\".txt", "日本.txt", "data.tmp", "keep.bak", "A001.mov", "a001.mov", "é.txt", "é.txt", "long" + "n" * 40 + ".dat", "-.txt", "#h.txt", "[b].txt", "li\u2028ne.txt", "𝄞 clef.txt", "take\\3.mov", "100%.txt", "%s %d.bin"]
+DIR_NAMES = ["A", "AB", "a", "s", "t", "sub dir", "é", "pa\u2029ra", "Clips", "Clips_proxy", "tmp", "B", "x&y", "d.tmp", "win\\dir", "50%done", "%H%M"]
 CONTENTS = ["", "a", "b", "hello", "HELLO", "hello\n", "0", "\x00\xff", "same", "same", "x" * 100]
 PATTERNS = ["*.tmp", "*.bak", "tmp", "tmp/", "a.txt", "A", "s/", "*.mov", "d?e.txt", "[ab].txt", "Clips", "é", "data.*", "t", "s/t", "/a.txt", "A/*.txt", "s/*.bin"]
 # order matters in these: a negation re-includes what an EARLIER pattern excluded
@@ -80,14 +80,24 @@ def enc(c):
 
 
 def fmt_subset(rnd, k=(1, 3)):
-    return rnd.sample(FORMATS, rnd.randint(*k))
+    fs = rnd.sample(FORMATS, rnd.randint(*k))
+    if rnd.random() < 0.08:
+        fs.append(rnd.choice(fs))  # -h given twice for one format
+    return fs
 
 
 def gen_scenario(seed, profile="general", n_ops=(3, 9)):
     rnd = random.Random(seed)
     fs = FsSim()
     gen_tree(rnd, fs, max_depth=rnd.choice([1, 2, 3, 3]))
-    sc = {"seed": seed, "profile": profile, "root": rnd.choice(["root", "root", "ro ot", "Rö&t", "ascmhl_x", "media"]), "tree": tree_dict(fs), "ops": []}
+    hl = {}
+    if rnd.random() < 0.15 and fs.files:
+        src = rnd.choice(sorted(fs.files))
+        dst = (rnd.choice(sorted(fs.dirs)) + "/hardlink of " + src.rsplit("/", 1)[-1]).lstrip("/")
+        if dst not in fs.files and dst not in fs.dirs:
+            fs.files[dst] = fs.files[src]
+            hl[dst] = src
+    sc = {"seed": seed, "profile": profile, "hardlinks": hl, "root": rnd.choice(["root", "root", "ro ot", "Rö&t", "ascmhl_x", "media", "100%done", "r%Y_%d"]), "tree": tree_dict(fs), "ops": []}
     t = 0
     base_now = "2026-03-01 12:00:%02d"
     ops = sc["ops"]
@@ -176,7 +186,8 @@ def gen_scenario(seed, profile="general", n_ops=(3, 9)):
                 if rnd.random() < 0.3:
                     kw["i"] = list(rnd.choice(PATTERN_SETS))
             if rnd.random() < 0.12:
-                kw["ii"] = rnd.choices(PATTERNS[:6], k=rnd.randint(1, 4))
+                # a pattern file has one pattern per line: a pattern may contain blanks
+                kw["ii"] = rnd.choices(PATTERNS[:6] + ["sub dir", "d e.txt", "*  spaced", "sub dir/"], k=rnd.randint(1, 4))
             if rnd.random() < 0.2:
                 below = [p for p in fs.below(at)] + [d for d in fs.dirs if d and d.startswith(at + "/" if at else "")]
                 if below:
@@ -272,9 +283,17 @@ def gen_nested(seed):
     rnd.shuffle(chosen)
     ops = []
     t = 0
+    root_first = rnd.random() < 0.3
+    if root_first:
+        # the outer folder is sealed BEFORE the nested histories come into being (some of them through a partial -sf run)
+        ops.append({"op": "create", "at": "", "h": fmt_subset(rnd, (1, 2)), "now": "2026-03-01 11:59:58"})
     for c in chosen:
         t += rnd.choice([0, 1])
         ops.append({"op": "create", "at": c, "h": fmt_subset(rnd, (1, 2)), "now": "2026-03-01 12:00:%02d" % t, **({"n": True} if rnd.random() < 0.15 else {})})
+        below = sorted(k[len(c) + 1:] for k, v in tree.items() if v is not None and k.startswith(c + "/"))
+        if root_first and below and rnd.random() < 0.6:
+            ops[-1]["sf"] = [rnd.choice(below)]
+            ops[-1].pop("n", None)
     t += 1
     ops.append({"op": "create", "at": "", "h": fmt_subset(rnd, (1, 2)), "now": "2026-03-01 12:00:%02d" % t})
     files = [k for k, v in tree.items() if v is not None]
